@@ -4,6 +4,7 @@ from .. import common as C, structs as S, valgen as V, seqgen as G, clientgen as
 from . import c11
 
 LEAN_MODULES = ["ZvtVerif.Properties.C05"]
+TRANSLATED = {"structs", "sequences", "fileids"}      # translated tables this property consumes (a translator problem elsewhere does not break its tie)
 ASSUMPTIONS = ["scripted terminal: releases acknowledgement + first reply after the command, then one item per client packet (reply i+1 only after reply i was answered)",
                "WriteFile (own into_stream): well-formed upload scripts over several files here; malformed requests and the file table under C11"]
 
